@@ -1886,6 +1886,8 @@ class EdgeQLSourceGenerator(codegen.SourceGenerator):
         keywords = []
         if node.abstract:
             keywords.append('ABSTRACT')
+        elif node.final:
+            keywords.append('FINAL')
         keywords.append('SCALAR')
         keywords.append('TYPE')
 
